@@ -367,3 +367,24 @@ Fixpoint sumz (l : list Z) : Z := match l with [] => 0 | x :: r => x + sumz r en
 (* acceptConsumerGroup, from what the two regular expressions answer for the group:
    a_set / d_set = the allowlist / denylist is configured; a_m / d_m = it matches the group *)
 Definition reader_accept (a_set a_m d_set d_m : bool) : bool := (negb a_set || a_m) && negb (d_set && d_m).
+
+(* ---------- where a request goes ---------- *)
+
+(* The module: its own name (the first argument of Configure; also the label of its Prometheus metrics) and the cluster
+   it reads the offsets topic for (viper consumer.<name>.cluster -> module.cluster).  The two are different strings in
+   general.  Every StorageRequest the reader builds names module.cluster in its Cluster field. *)
+Record reader_cfg := mkReaderCfg { rc_name : list Z; rc_cluster : list Z }.
+
+(* a request as it is sent: (StorageRequest.Cluster, the rest) *)
+Definition addressed : Type := (list Z * request)%type.
+Inductive outcome_for := CrashFor (w : why) | DoneFor (reqs : list addressed) (allocs : list Z).
+
+Definition address (cfg : reader_cfg) (o : outcome) : outcome_for :=
+  match o with
+  | Crash w => CrashFor w
+  | Done rs al => DoneFor (map (fun r => (rc_cluster cfg, r)) rs) al
+  end.
+
+(* processConsumerOffsetsMessage of the module configured as cfg *)
+Definition process_message_for (cfg : reader_cfg) (accept : list Z -> bool) (key value : list Z) (order : Z) : outcome_for :=
+  address cfg (process_message accept key value order).
